@@ -145,7 +145,7 @@ def check_huge(case, stats):
 
 def unit_huge(a):
     stats = Stats()
-    sweep(stats, [{"sub": "huge", "lines": n} for n in a["lines"]], check_huge)
+    sweep(stats, [{"sub": "huge", "lines": n, "budget_s": 30 + n // 3000} for n in a["lines"]], check_huge)
     return stats
 
 
